@@ -26,6 +26,7 @@ import (
 	"verifharness/internal/hx"
 	"verifharness/internal/model"
 	"verifharness/internal/srv"
+	"verifharness/internal/tmplx"
 )
 
 func main() { hx.Main("C17", runC17) }
@@ -51,6 +52,7 @@ type bb struct {
 	nb   *rconn      // native framing + OUTPUT resp on sb
 	st   *state
 	drv  *model.Driver
+	tm   *tmplx.Output
 	seq  int
 	dead bool
 }
@@ -228,6 +230,15 @@ func (b *bb) pair(args []string, count bool, setup bool) (jdoc, srv.Value) {
 		}
 		return jd, srv.Value{}
 	}
+	// the reply, as raw bytes, must be in the image of the modelled printer (Model/RespOut.v):
+	// the extracted strict parser accepts exactly these bytes, printing the parsed value gives
+	// them back, and the value is the one the harness's own reader saw
+	raw := string(b.rb.cap.Bytes())
+	if got := b.drv.Ask("resp_image", model.H(raw)); got != "1 "+canonRESP(rv) {
+		b.r.Fail(hx.Failure{Kind: "correspondence", Signature: "resp-print-model", What: "a RESP-mode reply is not in the image of Model.RespOut.resp_print (or parses to a different value): " + trunc(fmt.Sprintf("%q", raw), 200),
+			Case: map[string]interface{}{"state": b.st.Name, "args": q(args)}, Impl: trunc(canonRESP(rv), 300), Model: trunc(got, 300)})
+	}
+	b.r.Dist("model:resp_image")
 	if ev, err := b.rb.do("ECHO", nonce); err != nil {
 		b.serverGone("resp", args, err)
 		return jd, rv
@@ -238,6 +249,28 @@ func (b *bb) pair(args []string, count bool, setup bool) (jdoc, srv.Value) {
 	}
 	if dump {
 		fmt.Printf("[%s] %s\n   J %s\n   R %s\n", b.st.Name, q(args), trunc(jv.Str, 600), trunc(rv.String(), 600))
+	}
+	if jok && b.tm != nil {
+		// the reply must be an instance of one of the templates the theorems are about
+		sites, what := b.tm.Docs, "whole-document templates"
+		inner := cmd
+		if cmd == "timeout" && len(args) > 2 && jd.OK {
+			inner = strings.ToLower(args[2])
+		}
+		switch inner {
+		case "scan", "search", "nearby", "within", "intersects":
+			if jd.OK {
+				sites, what = b.tm.ScanDocs, "scanWriter templates"
+			}
+		}
+		b.r.Dist("model:inst-match")
+		if tmplx.MatchAny(sites, jv.Str) < 0 {
+			b.r.Fail(hx.Failure{Kind: "correspondence", Signature: "reply-not-instance-" + inner, What: "a real JSON reply is not an instance of any of the regenerated " + what + " (coq/Gen/Templates.v): " + trunc(jv.Str, 300),
+				Case: map[string]interface{}{"state": b.st.Name, "args": q(args)}, Impl: trunc(jv.Str, 400)})
+		}
+	}
+	if jok {
+		b.scanModel(cmd, args, jd, rv)
 	}
 	if jok {
 		if why := agree(cmd, args, jd, rv, b.st); why != "" {
@@ -404,6 +437,9 @@ func commandTable() []cmdSpec {
 
 func runBlackBox(r *hx.Result, cfg hx.Config, rng *rand.Rand, drv *model.Driver) {
 	b := &bb{r: r, cfg: cfg, rng: rng, drv: drv}
+	if tm, err := tmplx.Extract(repoDir()); err == nil {
+		b.tm = tm
+	}
 	var err error
 	b.sa, err = srv.Start(filepath.Join(cfg.Work, "c17-json"), "--appendonly", "yes")
 	if err != nil {
